@@ -29,6 +29,11 @@ CLAIMED = {
         text="Theorems hold for every shared secret, payload, reader schedule and message sequence; the wire-format theorem is parametric in the AEAD and the round trip is proved for the concrete Gallina ChaCha20-Poly1305 (open∘seal=id proved). Gen/Extracted.v (frame size, HKDF labels per direction, nonce offset) is regenerated from /repo on every run and the constants theorem recompiled. The extracted model, hc and an x/crypto reference framer are compared byte for byte over all payload lengths (thorough: 0..4097 exhaustively) and reader behaviours.",
         design="5/C06",
         note="Readers return non-empty pieces until exhausted. x/crypto trusted; Gallina crypto validated by RFC 8439 / FIPS 180-4 / RFC 5869 vectors under vm_compute. No axioms."),
+    "C07": dict(
+        technique="Coq refinement of the connection read path (readFrame/DecryptedRead model over an arbitrary socket-read schedule) to a byte FIFO, by invariant over reads; progress theorem; differential correspondence through hap.Connection over a scripted net.Conn",
+        text="C07_refines_fifo: for every chunk list, every segmentation/timeout schedule delivering the ciphertext and every sequence of caller buffer sizes, every Read result is data or timeout (never EOF / decrypt error) and delivered ++ buffered ++ undecrypted = sent (no loss, duplication, reordering); C07_progress: a complete buffered frame is served without consuming a socket event. Proved for any AEAD with open∘seal=id and for the Gallina ChaCha20-Poly1305. The extracted model and the real hap.Connection (session installed through the public context API) run on the same schedules, ciphertext from an x/crypto reference framer.",
+        design="5/C07",
+        note="The socket delivers bytes in order; schedules are explicit; net/http's buffering above Connection.Read is outside. Fixed defect 85a235f (lost read-ahead, spurious EOF, k*1024 stall). No axioms."),
 }
 PENDING_REASON = "not yet claimed: model/theorems for this property are still being built in this development (see DESIGN.md section 10 for the order of work)"
 
